@@ -425,6 +425,18 @@ fn run_all_inspections(
             None,
         )?;
 
+        // a failing inspection command makes the verification fail
+        if let MetadataWrapper::Link(link) = &metablock.metadata {
+            if link.byproducts.return_value() != Some(0) {
+                return Err(Error::VerificationFailure(format!(
+                    "inspection '{}' command {:?} exited with status {:?}",
+                    inspect.name(),
+                    cmd_args,
+                    link.byproducts.return_value(),
+                )));
+            }
+        }
+
         // dump the metadata
         let filename = format!("{}.link", inspect.name());
         std::fs::write(filename, serde_json::to_string_pretty(&metablock)?)?;
